@@ -128,7 +128,7 @@ def run_shard(args):
             res["labels"][k2] += v2
         if info.get("nontrivial"):
             res["nontrivial"][X.sha(case)] = 1
-        if len(res["samples"]) < 2 and info.get("nontrivial"):
+        if (len(res["samples"]) < 2 and info.get("nontrivial")) or not res["samples"]:
             view = getattr(mod, "sample_view", lambda c: c)(case)
             res["samples"].append(view)
 
